@@ -118,13 +118,6 @@ def showDump (d : DB) : String :=
     | .val v => s!"{showPath q}={showBytes v}"
     | .bucket s => s!"{showPath q}@{s}")
 
-/-- Ops the walletdb API offers on the root: only top-level create (if-not-exists), delete, lookup, ForEachBucket. -/
-def rootOk : Op → Bool
-  | .createBucketIfNotExists [] _ | .deleteBucket [] _ | .lookup [] _ | .forEach [] _ => true
-  | .put [] _ _ | .get [] _ | .delete [] _ | .createBucket [] _ | .sequence [] | .setSequence [] _
-  | .nextSequence [] | .curOpen _ [] => false
-  | _ => true
-
 def parseOp (t : List String) : Option Op :=
   match t with
   | ["put", p, k, v] => do pure (.put (← parsePath p) (← parseBytes k) (← parseBytes v))
@@ -226,7 +219,7 @@ def stepLine (w : World) (line : String) : World × String :=
     match parseOp t with
     | none => (w, "bad-op")
     | some op =>
-      if !rootOk op then (w, "bad-op")
+      if !op.apiOk then (w, "bad-op")
       else match w.cur with
         | none => (w, "notx")
         | some (k, tx) =>
